@@ -90,7 +90,7 @@ def build_dlis(rng):
 
 
 def build_lis(rng, ctx):
-    npass = rng.choice([1, 1, 2])
+    npass = rng.choice([1, 1, 2, 3])
     lrs, passes, metas = [], [], []
     for k in range(npass):
         # the X axis may be recorded in a unit other than the one the LAS well section is written in (.1IN -> FEET, CM -> M):
